@@ -19,16 +19,27 @@
    (`.addr 0; .du32 0; .du32 X; .align 0xFFFFFFFF; .du8 0; .const X, 1;`).
    The outcome POutOfFuel of the model is not a behaviour of the implementation (the model runs the include recursion,
    the task rounds, the map's binary search and the tokenizer / parser on explicit fuel).  C06_fuel_not_rounds
-   (Asm/CtxFuel.v) excludes two of its four sources: the tokenizer / parser fuel never runs out, and the round bound of
+   (Asm/CtxFuel.v) excludes two of its sources: the tokenizer / parser fuel never runs out, and the round bound of
    the two task loops is never the reason (a task never adds to the list being drained, so the second round is empty).
-   NOT proved: that POutOfFuel arises only from the include-depth fuel, i.e.
-     forall files, (forall p, fs p <> None -> In p files) -> length files < fuel -> pipeline_gen dbg fs fuel path text <> POutOfFuel.
-   Missing: the map's search fuel suffices in every reachable state (C15 proves it under the map invariant Rep, C13
-   proves Rep for every reachable state; the two are not composed into a no-OutOfFuel statement), and the pigeonhole
-   argument on path_stack (an include cycle is a diagnostic since 1569db8, so path_stack has no duplicates and its
-   length is bounded by the number of files). *)
+   C06_no_out_of_fuel (Asm/CtxFuel2.v) composes them with the remaining two and closes the characterisation:
+     forall files, (forall p, fs p <> None -> In p files) -> length files < fuel -> pipeline_gen dbg fs fuel path text <> POutOfFuel
+   * the map's binary search never runs out of fuel on a map with C15's invariant Rep (MapProofs.locate_ok), and every
+     state the pipeline reaches has it (C13: good), so close_segment / select_segment / write_instr / write_data never
+     return OutOfFuel;
+   * the fuel of Context::assemble is consumed one unit per open file; since fix 1569db8 a path already on path_stack is
+     refused, so every recursing `.include` opens a file p with fs p <> None that is not open: the number of project
+     files that are not open strictly decreases along an include chain (pigeonhole on path_stack), and a fuel larger
+     than the number of files of the project is never exhausted.
+   So POutOfFuel can only mean "more nested includes than fuel" (with the release constant include_fuel = 64: a project
+   of 64 or more files); C06_no_out_of_fuel_single: a project without files never yields it, whatever the positive fuel.
+   With C06_never_panics: for such projects every outcome of the pipeline is Done.
+   C06_no_out_of_fuel_depth: the same with the include DEPTH in place of the number of files: for any rank function
+   that decreases along every `.include "name"` statement (of the root text and of every project file) whose target can
+   be opened - e.g. the height of a file in the include graph - a fuel above the rank of the root is never exhausted.
+   `includes data name` = the parsed statements of data contain `.include "name"`; resolve_path = the model of
+   `dir(current file) / name`. *)
 From Coq Require Import ZArith NArith List Bool String.
-From Trion Require Import Text.Types Asm.CtxModel Asm.ReportSpec Asm.Ctx06Proofs Asm.CtxNoPanic Asm.CtxFuel.
+From Trion Require Import Text.Types Asm.CtxModel Asm.ReportSpec Asm.Ctx06Proofs Asm.CtxNoPanic Asm.CtxFuel Asm.CtxFuel2.
 From Trion Require Arm.AsmStmtModel Expr.EvalModel.
 Import ListNotations.
 Open Scope N_scope.
@@ -47,6 +58,38 @@ Theorem C06_fuel_not_rounds : forall dbg,
   (forall k tasks st, tinv st -> path_stack st = [] -> Forall plain tasks -> global_tasks st = [] ->
      final_loop dbg (S k) tasks st = OutOfFuel -> final_round dbg tasks st = OutOfFuel).
 Proof. exact fuel_not_rounds. Qed.
+
+(* the model's OutOfFuel outcome means "include nesting deeper than the fuel" and nothing else: when the fuel exceeds
+   the number of files of the project (files = any list that contains every path fs can open), the pipeline never
+   returns POutOfFuel - any root path and source text, both build profiles.  (Map search, tokenizer, parser and
+   task-round fuels always suffice; an include chain never repeats a path, fix 1569db8.) *)
+Theorem C06_no_out_of_fuel : forall dbg fs fuel path text files,
+  (forall p, fs p <> None -> In p files) -> (List.length files < fuel)%nat ->
+  pipeline_gen dbg fs fuel path text <> POutOfFuel.
+Proof. exact no_out_of_fuel. Qed.
+
+(* the sharper bound, by include depth: rank decreases along every include statement that can be opened; the fuel need
+   only exceed the rank of the root file ("every include chain from the root is shorter than the fuel") *)
+Theorem C06_no_out_of_fuel_depth : forall dbg fs fuel path text (rank : str -> nat),
+  (forall name, includes text name -> fs (resolve_path path name) <> None ->
+     (rank (resolve_path path name) < rank path)%nat) ->
+  (forall p d, fs p = Some d -> forall name, includes d name -> fs (resolve_path p name) <> None ->
+     (rank (resolve_path p name) < rank p)%nat) ->
+  (rank path < fuel)%nat ->
+  pipeline_gen dbg fs fuel path text <> POutOfFuel.
+Proof. exact no_out_of_fuel_depth. Qed.
+
+(* a single source text (no file can be opened: every .include / .dfile is a diagnostic): never OutOfFuel *)
+Theorem C06_no_out_of_fuel_single : forall dbg fuel path text,
+  pipeline_gen dbg (fun _ => None) (S fuel) path text <> POutOfFuel.
+Proof. exact no_out_of_fuel_single. Qed.
+
+(* with C06_never_panics: the pipeline of a project with fewer files than the release include fuel (64) always
+   returns Done - success or failure with its diagnostics and regions *)
+Theorem C06_always_done : forall fs path text files,
+  (forall p, fs p <> None -> In p files) -> (List.length files < include_fuel)%nat ->
+  exists s diags regions, pipeline fs path text = Done s diags regions.
+Proof. exact always_done. Qed.
 
 (* success <=> no diagnostic recorded; failure => at least one diagnostic (a close error is its own report).
    Every diagnostic carries a file name, line and column by construction (record CtxModel.diag). *)
@@ -186,6 +229,21 @@ Theorem C06_examples_pipeline :
   run1 ".include ""p.asm"";" = Some (Failure, [KApply AIncRecursive]) /\
   run1 ".addr 256; X: .global X; .du32 X;" = Some (Success, []).
 Proof. exact pipeline_examples. Qed.
+
+(* non-vacuity of the fuel theorems, and tightness of the bound: main includes a.asm which includes b.asm (3 units of fuel:
+   one per open file).  With fuel 3 - the rank of the root in `main > a.asm > b.asm`, plus one - the pipeline is Done; with
+   fuel 2 the model reports POutOfFuel; the files list [a.asm; b.asm] has length 2 < 3 *)
+Definition fuel_fs (p : str) : option (list N) :=
+  if str_eqb p (DisplayModel.bytes_of_string "a.asm") then Some (DisplayModel.bytes_of_string ".include ""b.asm""; NOP;")
+  else if str_eqb p (DisplayModel.bytes_of_string "b.asm") then Some (DisplayModel.bytes_of_string "NOP;")
+  else None.
+Theorem C06_fuel_examples :
+  let src := DisplayModel.bytes_of_string in
+  let root := src ".addr 256; .include ""a.asm""; NOP;"%string in
+  pipeline_gen false fuel_fs 3 (src "main.asm"%string) root = Done Success [] [(256, 261, [0; 191; 0; 191; 0; 191])]
+  /\ pipeline_gen false fuel_fs 2 (src "main.asm"%string) root = POutOfFuel
+  /\ pipeline_gen false (fun _ => None) 1 (src "main.asm"%string) root <> POutOfFuel.
+Proof. vm_compute. repeat split; try reflexivity. discriminate. Qed.
 
 Theorem C06_examples :
   judge [([112], [78;79;80;59;10])] StSuccess [] false None = None /\
